@@ -1,4 +1,5 @@
 import AslModel.Var
+import AslProofs.Map
 /-!
 # Specification vocabulary and helper lemmas for the `asl::Var` model (`AslModel/Var.lean`) — core Lean only
 
@@ -230,5 +231,970 @@ theorem eq_iff_content_aux : ∀ (f : Nat) (h : Heap) (v w : V) (tv tw : Tree),
               have h1 := mapO_length _ _ _ hla
               have h2 := mapO_length _ _ _ hlb
               rw [e] at h1; omega
+
+
+
+/-! ## counting handle occurrences -/
+
+def occ (id : Nat) (vs : List V) : Nat := vs.countP (fun v => handleOf v == some id)
+
+def bvals (b : Block) : List V := b.items.map (·.2)
+
+def ovals : Option Block → List V
+  | some b => bvals b
+  | none => []
+
+def hvals (h : Heap) : List V := h.flatMap ovals
+
+theorem occ_nil (id : Nat) : occ id [] = 0 := rfl
+theorem occ_cons (id : Nat) (v : V) (vs : List V) :
+    occ id (v :: vs) = occ id vs + (if handleOf v = some id then 1 else 0) := by
+  simp [occ, List.countP_cons]
+theorem occ_append (id : Nat) (a b : List V) : occ id (a ++ b) = occ id a + occ id b := by
+  simp [occ, List.countP_append]
+
+theorem occ_pos_iff (id : Nat) (vs : List V) : 0 < occ id vs ↔ ∃ v ∈ vs, handleOf v = some id := by
+  simp [occ, List.countP_pos_iff]
+
+theorem occ_eq_zero_iff (id : Nat) (vs : List V) : occ id vs = 0 ↔ ∀ v ∈ vs, handleOf v ≠ some id := by
+  simp [occ, List.countP_eq_zero]
+
+theorem hvals_nil : hvals [] = [] := rfl
+theorem hvals_cons (ob : Option Block) (h : Heap) : hvals (ob :: h) = ovals ob ++ hvals h := by
+  simp [hvals]
+theorem hvals_append (a b : Heap) : hvals (a ++ b) = hvals a ++ hvals b := by
+  simp [hvals]
+
+/-- replacing entry `i` of the heap moves the values of the old entry out and those of the new entry in -/
+theorem occ_hvals_set (id : Nat) : ∀ (h : Heap) (i : Nat) (ob : Option Block), i < h.length →
+    occ id (hvals (h.set i ob)) + occ id (ovals (h[i]?.getD none)) = occ id (hvals h) + occ id (ovals ob)
+  | [], i, ob, hi => by simp at hi
+  | x :: h, 0, ob, _ => by
+    simp [hvals_cons, occ_append]; omega
+  | x :: h, i + 1, ob, hi => by
+    have := occ_hvals_set id h i ob (by simpa using hi)
+    simp [hvals_cons, occ_append] at this ⊢; omega
+
+theorem mem_hvals_set {h : Heap} {i : Nat} {ob : Option Block} {v : V} (hv : v ∈ hvals (h.set i ob)) :
+    v ∈ hvals h ∨ v ∈ ovals ob := by
+  induction h generalizing i with
+  | nil => simp [hvals] at hv
+  | cons x h ih =>
+    cases i with
+    | zero =>
+      simp [hvals_cons] at hv ⊢
+      rcases hv with hv | hv
+      · exact Or.inr hv
+      · exact Or.inl (Or.inr hv)
+    | succ i =>
+      simp [hvals_cons] at hv ⊢
+      rcases hv with hv | hv
+      · exact Or.inl (Or.inl hv)
+      · rcases ih hv with h1 | h1
+        · exact Or.inl (Or.inr h1)
+        · exact Or.inr h1
+
+theorem mem_hvals_of_getB {h : Heap} {id : Nat} {b : Block} (hb : getB h id = .ok b) {v : V} (hv : v ∈ bvals b) :
+    v ∈ hvals h := by
+  unfold getB at hb
+  split at hb
+  · rename_i b' hb'
+    cases hb
+    simp only [hvals, List.mem_flatMap]
+    exact ⟨some b, List.mem_of_getElem? hb', hv⟩
+  · cases hb
+
+theorem getB_lt {h : Heap} {id : Nat} {b : Block} (hb : getB h id = .ok b) : id < h.length := by
+  unfold getB at hb
+  split at hb
+  · rename_i b' hb'
+    exact (List.getElem?_eq_some_iff.mp hb').1
+  · cases hb
+
+theorem getB_eq {h : Heap} {id : Nat} {b : Block} : getB h id = .ok b ↔ h[id]? = some (some b) := by
+  unfold getB
+  constructor
+  · intro hb
+    split at hb
+    · rename_i b' hb'; cases hb; exact hb'
+    · cases hb
+  · intro hb; simp [hb]
+
+theorem getB_setB_same {h : Heap} {id : Nat} (b : Block) (hi : id < h.length) : getB (setB h id b) id = .ok b := by
+  simp [getB_eq, setB, hi]
+
+theorem getB_set_ne {h : Heap} {id id' : Nat} (ob : Option Block) (hne : id' ≠ id) : getB (h.set id ob) id' = getB h id' := by
+  unfold getB
+  rw [List.getElem?_set_ne (Ne.symm hne)]
+
+theorem getB_freeB_same {h : Heap} {id : Nat} : ∀ b, getB (freeB h id) id ≠ .ok b := by
+  intro b hb
+  rw [getB_eq, freeB] at hb
+  by_cases hi : id < h.length
+  · simp [hi] at hb
+  · rw [List.getElem?_eq_none (by simp; omega)] at hb; cases hb
+
+theorem getB_append_left {h : Heap} {id : Nat} (x : Heap) (hi : id < h.length) : getB (h ++ x) id = getB h id := by
+  unfold getB; rw [List.getElem?_append_left hi]
+
+theorem getB_alloc_new (h : Heap) (b : Block) : getB (h ++ [some b]) h.length = .ok b := by
+  simp [getB_eq]
+
+
+theorem hvals_set_same : ∀ (h : Heap) (i : Nat) (ob : Option Block), ovals ob = ovals (h[i]?.getD none) →
+    hvals (h.set i ob) = hvals h
+  | [], _, _, _ => rfl
+  | x :: h, 0, ob, e => by simp at e; simp [hvals_cons, e]
+  | x :: h, i + 1, ob, e => by
+    simp at e
+    simp [hvals_cons, hvals_set_same h i ob (by simpa using e)]
+
+theorem hvals_setB_rc {h : Heap} {id : Nat} {b : Block} (hb : getB h id = .ok b) (r : Nat) :
+    hvals (setB h id { b with rc := r }) = hvals h := by
+  apply hvals_set_same
+  rw [getB_eq] at hb
+  simp [hb, ovals, bvals]
+
+/-! ## the reference-count invariant -/
+
+def isObjV : V → Bool
+  | .obj _ => true
+  | _ => false
+
+/-- `R` = the values held outside the heap (root variables and the temporaries of the running operation) -/
+structure WF (h : Heap) (R : List V) : Prop where
+  /-- every handle points to a live block of its kind -/
+  live : ∀ v, (v ∈ R ∨ v ∈ hvals h) → ∀ id, handleOf v = some id → ∃ b, getB h id = .ok b ∧ b.isObj = isObjV v
+  /-- the count of a live block is the number of handles to it -/
+  counted : ∀ id b, getB h id = .ok b → b.rc = occ id R + occ id (hvals h)
+  pos : ∀ id b, getB h id = .ok b → 0 < b.rc
+
+/-- `WF` only looks at the roots through membership and counts -/
+theorem WF.congr {h : Heap} {R R' : List V} (wf : WF h R) (hm : ∀ v, v ∈ R' → v ∈ R) (hc : ∀ id, occ id R' = occ id R) :
+    WF h R' :=
+  { live := fun v hv => wf.live v (hv.elim (fun h1 => Or.inl (hm v h1)) Or.inr)
+    counted := fun id b hb => by rw [hc]; exact wf.counted id b hb
+    pos := wf.pos }
+
+/-- a root that is not a handle can be added or dropped -/
+theorem WF.cons_scalar {h : Heap} {R : List V} {v : V} (hv : handleOf v = none) : WF h (v :: R) ↔ WF h R := by
+  constructor
+  · intro wf
+    exact wf.congr (fun x hx => List.mem_cons_of_mem _ hx) (fun id => by simp [occ_cons, hv])
+  · intro wf
+    refine ⟨fun x hx id hid => ?_, fun id b hb => by simp [occ_cons, hv]; exact wf.counted id b hb, wf.pos⟩
+    rcases hx with hx | hx
+    · rcases List.mem_cons.mp hx with rfl | hx
+      · simp [hv] at hid
+      · exact wf.live x (Or.inl hx) id hid
+    · exact wf.live x (Or.inr hx) id hid
+
+/-- heaps that differ only in reference counts -/
+def eraseRc (b : Block) : Block := { b with rc := 0 }
+def SameItems (h h' : Heap) : Prop := h.map (Option.map eraseRc) = h'.map (Option.map eraseRc)
+
+theorem SameItems.refl (h : Heap) : SameItems h h := rfl
+theorem SameItems.trans {a b c : Heap} (h1 : SameItems a b) (h2 : SameItems b c) : SameItems a c := Eq.trans h1 h2
+theorem SameItems.length {h h' : Heap} (e : SameItems h h') : h.length = h'.length := by
+  have := congrArg List.length e; simpa using this
+
+theorem SameItems.get {h h' : Heap} (e : SameItems h h') {id : Nat} {b : Block} (hb : Var.getB h id = .ok b) :
+    ∃ b', Var.getB h' id = .ok b' ∧ b'.items = b.items ∧ b'.isObj = b.isObj ∧ b'.cap = b.cap := by
+  rw [getB_eq] at hb
+  have := congrArg (fun l => l[id]?) e
+  simp [hb] at this
+  cases hx : h'[id]? with
+  | none => simp [hx] at this
+  | some ob =>
+    cases ob with
+    | none => simp [hx] at this
+    | some b' =>
+      simp [hx, eraseRc] at this
+      refine ⟨b', getB_eq.mpr hx, ?_⟩
+      cases b; cases b'; simp_all
+
+theorem SameItems.setRc {h : Heap} {id : Nat} {b : Block} (hb : Var.getB h id = .ok b) (r : Nat) :
+    SameItems h (Var.setB h id { b with rc := r }) := by
+  rw [getB_eq] at hb
+  unfold SameItems Var.setB
+  rw [List.map_set]
+  apply List.ext_getElem?
+  intro i
+  by_cases hi : i = id
+  · subst hi
+    obtain ⟨hlt, hget⟩ := List.getElem?_eq_some_iff.mp hb
+    simp [hlt, hget, eraseRc]
+  · simp [List.getElem?_set_ne (Ne.symm hi)]
+
+/-- `Var(const Var&)` of a value that is held somewhere: succeeds, and the copy is one more root -/
+theorem WF.copyV {h : Heap} {R : List V} {v : V} (wf : WF h R) (hv : v ∈ R ∨ v ∈ hvals h) :
+    ∃ h', copyV h v = .ok h' ∧ WF h' (v :: R) ∧ SameItems h h' := by
+  unfold Var.copyV
+  cases hh : handleOf v with
+  | none => exact ⟨h, rfl, (WF.cons_scalar hh).mpr wf, SameItems.refl h⟩
+  | some id =>
+    obtain ⟨b, hb, hk⟩ := wf.live v hv id hh
+    simp only [hb]
+    refine ⟨_, rfl, ?_, SameItems.setRc hb _⟩
+    have hlt := getB_lt hb
+    have hvals_eq := hvals_setB_rc hb (b.rc + 1)
+    refine ⟨?_, ?_, ?_⟩
+    · intro x hx id' hid'
+      rw [hvals_eq] at hx
+      have hx' : x ∈ R ∨ x ∈ hvals h := by
+        rcases hx with hx | hx
+        · rcases List.mem_cons.mp hx with rfl | hx
+          · exact hv
+          · exact Or.inl hx
+        · exact Or.inr hx
+      obtain ⟨b', hb', hk'⟩ := wf.live x hx' id' hid'
+      by_cases he : id' = id
+      · subst he
+        rw [hb] at hb'; cases hb'
+        exact ⟨_, getB_setB_same _ hlt, hk'⟩
+      · exact ⟨b', by rw [setB, getB_set_ne _ he]; exact hb', hk'⟩
+    · intro id' b' hb'
+      rw [hvals_eq, occ_cons]
+      by_cases he : id' = id
+      · subst he
+        rw [getB_setB_same _ hlt] at hb'; cases hb'
+        simp [hh]
+        have := wf.counted id' b hb
+        omega
+      · rw [setB, getB_set_ne _ he] at hb'
+        have := wf.counted id' b' hb'
+        have hne : ¬ handleOf v = some id' := by rw [hh]; intro e; cases e; exact he rfl
+        simp [hne]; exact this
+    · intro id' b' hb'
+      by_cases he : id' = id
+      · subst he
+        rw [getB_setB_same _ hlt] at hb'; cases hb'
+        simp
+      · rw [setB, getB_set_ne _ he] at hb'
+        exact wf.pos id' b' hb'
+
+
+/-! ## destruction -/
+
+def osize : Option Block → Nat
+  | some b => b.items.length + 1
+  | none => 0
+
+theorem heapSize_eq (h : Heap) : heapSize h = (h.map osize).sum := by
+  unfold heapSize
+  congr 1
+
+theorem heapSize_set : ∀ (h : Heap) (i : Nat) (ob : Option Block), i < h.length →
+    heapSize (h.set i ob) + osize (h[i]?.getD none) = heapSize h + osize ob
+  | [], i, ob, hi => by simp at hi
+  | x :: h, 0, ob, _ => by simp [heapSize_eq]; omega
+  | x :: h, i + 1, ob, hi => by
+    have := heapSize_set h i ob (by simpa using hi)
+    simp [heapSize_eq] at this ⊢; omega
+
+/-- `h'` is `h` with some blocks released and some reference counts changed -/
+def SubItems (h h' : Heap) : Prop :=
+  h'.length = h.length ∧
+  ∀ id b', getB h' id = .ok b' → ∃ b, getB h id = .ok b ∧ b'.items = b.items ∧ b'.isObj = b.isObj ∧ b'.cap = b.cap
+
+theorem SubItems.refl (h : Heap) : SubItems h h := ⟨rfl, fun _ b' hb => ⟨b', hb, rfl, rfl, rfl⟩⟩
+theorem SubItems.trans {a b c : Heap} (h1 : SubItems a b) (h2 : SubItems b c) : SubItems a c :=
+  ⟨h2.1.trans h1.1, fun id b' hb => by
+    obtain ⟨b1, hb1, e1, e2, e3⟩ := h2.2 id b' hb
+    obtain ⟨b0, hb0, f1, f2, f3⟩ := h1.2 id b1 hb1
+    exact ⟨b0, hb0, e1.trans f1, e2.trans f2, e3.trans f3⟩⟩
+
+theorem SubItems.of_same {h h' : Heap} (e : SameItems h h') : SubItems h h' :=
+  ⟨e.length.symm, fun id b' hb => by
+    have e' : SameItems h' h := Eq.symm e
+    obtain ⟨b, hb2, e1, e2, e3⟩ := e'.get hb
+    exact ⟨b, hb2, e1.symm, e2.symm, e3.symm⟩⟩
+
+theorem SubItems.freeB {h : Heap} (id : Nat) : SubItems h (freeB h id) :=
+  ⟨by simp [Var.freeB], fun id' b' hb => by
+    by_cases he : id' = id
+    · subst he; exact absurd hb (getB_freeB_same b')
+    · rw [Var.freeB, getB_set_ne _ he] at hb; exact ⟨b', hb, rfl, rfl, rfl⟩⟩
+
+/-- destroying owned values: never touches a released block, and leaves a well-counted heap -/
+theorem WF.release {R : List V} : ∀ (fuel : Nat) (h : Heap) (wl : List V), WF h (wl ++ R) → heapSize h + wl.length < fuel →
+    ∃ h', release fuel h wl = .ok h' ∧ WF h' R ∧ SubItems h h' := by
+  intro fuel
+  induction fuel with
+  | zero => intro h wl _ hf; omega
+  | succ f ih =>
+    intro h wl wf hf
+    cases wl with
+    | nil => exact ⟨h, rfl, by simpa using wf, SubItems.refl h⟩
+    | cons v rest =>
+      simp only [Var.release]
+      cases hh : handleOf v with
+      | none =>
+        exact ih h rest ((WF.cons_scalar hh).mp (by simpa using wf)) (by simp at hf; omega)
+      | some id =>
+        obtain ⟨b, hb, _⟩ := wf.live v (Or.inl (by simp)) id hh
+        simp only [hb]
+        have hpos := wf.pos id b hb
+        have hcnt := wf.counted id b hb
+        have hlt := getB_lt hb
+        have hbe := getB_eq.mp hb
+        simp only [List.cons_append, occ_cons, hh, if_true] at hcnt
+        by_cases h0 : b.rc = 0
+        · omega
+        simp only [h0, if_false]
+        by_cases h1 : b.rc = 1
+        · -- the last reference: the block is released, its elements are destroyed next
+          simp only [h1, if_true]
+          have hz1 : occ id (rest ++ R) = 0 := by omega
+          have hz2 : occ id (hvals h) = 0 := by omega
+          have hset := fun x => occ_hvals_set x h id none hlt
+          simp only [hbe, Option.getD_some, ovals, occ_nil] at hset
+          have wf1 : WF (freeB h id) ((b.items.map (·.2) ++ rest) ++ R) := by
+            refine ⟨?_, ?_, ?_⟩
+            · intro x hx id' hid'
+              have hx' : (x ∈ rest ++ R ∨ x ∈ hvals h) := by
+                rcases hx with hx | hx
+                · simp only [List.append_assoc, List.mem_append] at hx
+                  rcases hx with hx | hx | hx
+                  · exact Or.inr (mem_hvals_of_getB hb hx)
+                  · exact Or.inl (by simp [hx])
+                  · exact Or.inl (by simp [hx])
+                · rcases mem_hvals_set hx with h2 | h2
+                  · exact Or.inr h2
+                  · simp [ovals] at h2
+              have hne : id' ≠ id := by
+                intro e; subst e
+                rcases hx' with hx' | hx'
+                · exact (occ_eq_zero_iff _ _).mp hz1 x hx' hid'
+                · exact (occ_eq_zero_iff _ _).mp hz2 x hx' hid'
+              obtain ⟨b', hb', hk'⟩ := wf.live x (hx'.elim (fun h3 => Or.inl (by
+                simp only [List.cons_append, List.mem_cons]; exact Or.inr h3)) Or.inr) id' hid'
+              exact ⟨b', by rw [Var.freeB, getB_set_ne _ hne]; exact hb', hk'⟩
+            · intro id' b' hb'
+              have hne : id' ≠ id := by
+                intro e; subst e; exact getB_freeB_same b' hb'
+              rw [Var.freeB, getB_set_ne _ hne] at hb'
+              have hc := wf.counted id' b' hb'
+              have hs := hset id'
+              have hvne : ¬ handleOf v = some id' := by rw [hh]; intro e; cases e; exact hne rfl
+              simp only [List.cons_append, occ_cons, hvne, if_false] at hc
+              simp only [List.append_assoc, occ_append] at hc ⊢
+              simp only [bvals] at hs
+              unfold Var.freeB
+              omega
+            · intro id' b' hb'
+              have hne : id' ≠ id := by
+                intro e; subst e; exact getB_freeB_same b' hb'
+              rw [Var.freeB, getB_set_ne _ hne] at hb'
+              exact wf.pos id' b' hb'
+          have hsz := heapSize_set h id none hlt
+          simp only [hbe, Option.getD_some, osize] at hsz
+          obtain ⟨h', hr, wf', sub⟩ := ih (freeB h id) (b.items.map (·.2) ++ rest) wf1 (by
+            unfold Var.freeB; simp at hf ⊢; omega)
+          exact ⟨h', hr, wf', (SubItems.freeB id).trans sub⟩
+        · -- other references remain
+          simp only [h1, if_false]
+          have hvals_eq := hvals_setB_rc hb (b.rc - 1)
+          have wf1 : WF (setB h id { b with rc := b.rc - 1 }) (rest ++ R) := by
+            refine ⟨?_, ?_, ?_⟩
+            · intro x hx id' hid'
+              rw [hvals_eq] at hx
+              obtain ⟨b', hb', hk'⟩ := wf.live x (hx.elim (fun h3 => Or.inl (by
+                simp only [List.cons_append, List.mem_cons]; exact Or.inr h3)) Or.inr) id' hid'
+              by_cases he : id' = id
+              · subst he
+                rw [hb] at hb'; cases hb'
+                exact ⟨_, getB_setB_same _ hlt, hk'⟩
+              · exact ⟨b', by rw [Var.setB, getB_set_ne _ he]; exact hb', hk'⟩
+            · intro id' b' hb'
+              rw [hvals_eq]
+              by_cases he : id' = id
+              · subst he
+                rw [getB_setB_same _ hlt] at hb'; cases hb'
+                simp only []
+                omega
+              · rw [Var.setB, getB_set_ne _ he] at hb'
+                have hc := wf.counted id' b' hb'
+                have hvne : ¬ handleOf v = some id' := by rw [hh]; intro e; cases e; exact he rfl
+                simp only [List.cons_append, occ_cons, hvne, if_false] at hc
+                omega
+            · intro id' b' hb'
+              by_cases he : id' = id
+              · subst he
+                rw [getB_setB_same _ hlt] at hb'; cases hb'
+                simp only []; omega
+              · rw [Var.setB, getB_set_ne _ he] at hb'
+                exact wf.pos id' b' hb'
+          have hsz := heapSize_set h id (some { b with rc := b.rc - 1 }) hlt
+          simp only [hbe, Option.getD_some, osize] at hsz
+          obtain ⟨h', hr, wf', sub⟩ := ih _ rest wf1 (by unfold Var.setB; simp at hf ⊢; omega)
+          exact ⟨h', hr, wf', (SubItems.of_same (SameItems.setRc hb _)).trans sub⟩
+
+theorem WF.drop {h : Heap} {R wl : List V} (wf : WF h (wl ++ R)) :
+    ∃ h', drop h wl = .ok h' ∧ WF h' R ∧ SubItems h h' :=
+  WF.release (relFuel h wl) h wl wf (by unfold relFuel; omega)
+
+
+/-! ## `strcmp` order on keys (for the ascending `KeyVal` arrays of objects) -/
+open AslProofs.Map in
+theorem cmpB_eq_iff : ∀ a b : List UInt8, Map.cmpBytes a b = .eq ↔ a = b
+  | [], [] => by simp [Map.cmpBytes]
+  | [], _ :: _ => by simp [Map.cmpBytes]
+  | _ :: _, [] => by simp [Map.cmpBytes]
+  | a :: s, b :: t => by
+    simp only [Map.cmpBytes, List.cons.injEq]
+    by_cases h1 : a < b
+    · have : a ≠ b := fun e => by subst e; exact absurd h1 (UInt8.lt_irrefl a)
+      simp [h1, this]
+    · by_cases h2 : a = b
+      · simp [h2, cmpB_eq_iff s t]
+      · simp [h1, h2]
+
+theorem cmpB_gt_iff : ∀ a b : List UInt8, Map.cmpBytes a b = .gt ↔ Map.cmpBytes b a = .lt
+  | [], [] => by simp [Map.cmpBytes]
+  | [], _ :: _ => by simp [Map.cmpBytes]
+  | _ :: _, [] => by simp [Map.cmpBytes]
+  | a :: s, b :: t => by
+    simp only [Map.cmpBytes]
+    by_cases h1 : a < b
+    · have h3 : ¬ b < a := by rw [UInt8.lt_iff_toNat_lt] at *; omega
+      have h4 : ¬ b = a := by intro e; subst e; exact absurd h1 (UInt8.lt_irrefl b)
+      simp [h1, h3, h4]
+    · by_cases h2 : a = b
+      · subst h2; simp [h1, cmpB_gt_iff s t]
+      · have h3 : b < a := by
+          rw [UInt8.lt_iff_toNat_lt] at *
+          have : a.toNat ≠ b.toNat := fun e => h2 (UInt8.toNat_inj.mp e)
+          omega
+        have h4 : ¬ b = a := fun e => h2 e.symm
+        simp [h1, h2, h3]
+
+theorem cmpB_trans : ∀ a b c : List UInt8, Map.cmpBytes a b = .lt → Map.cmpBytes b c = .lt → Map.cmpBytes a c = .lt
+  | [], [], _ => by simp [Map.cmpBytes]
+  | [], _ :: _, [] => by simp [Map.cmpBytes]
+  | [], _ :: _, _ :: _ => by simp [Map.cmpBytes]
+  | _ :: _, [], _ => by simp [Map.cmpBytes]
+  | _ :: _, _ :: _, [] => by simp [Map.cmpBytes]
+  | a :: s, b :: t, c :: u => by
+    simp only [Map.cmpBytes]
+    intro h1 h2
+    by_cases ab : a < b
+    · by_cases bc : b < c
+      · have : a < c := by rw [UInt8.lt_iff_toNat_lt] at *; omega
+        simp [this]
+      · by_cases e : b = c
+        · subst e; simp [ab]
+        · simp [bc, e] at h2
+    · by_cases e1 : a = b
+      · subst e1
+        simp only [ab, if_false, if_true] at h1
+        by_cases bc : a < c
+        · simp [bc]
+        · by_cases e : a = c
+          · subst e
+            simp only [bc, if_false, if_true] at h2 ⊢
+            exact cmpB_trans s t u h1 h2
+          · simp [bc, e] at h2
+      · simp [ab, e1] at h1
+
+theorem cmpB_strict : AslProofs.Map.StrictOrder Map.cmpBytes := ⟨cmpB_eq_iff, cmpB_gt_iff, cmpB_trans⟩
+
+abbrev SortedItems (l : List (Bytes × V)) : Prop := AslProofs.Map.Sorted Map.cmpBytes l
+
+/-! ## the invariant of a state -/
+
+/-- objects keep their `KeyVal` array strictly ascending -/
+def SortedHeap (h : Heap) : Prop := ∀ id b, getB h id = .ok b → b.isObj = true → SortedItems b.items
+
+/-- no block holds a handle to itself -/
+def NoSelf (h : Heap) : Prop := ∀ id b, getB h id = .ok b → ∀ v ∈ bvals b, handleOf v ≠ some id
+
+/-- `T`: the values owned by the running operation (temporaries) -/
+structure Inv (σ : State) (T : List V) : Prop where
+  wf : WF σ.heap (σ.slots ++ T)
+  sorted : SortedHeap σ.heap
+  noself : NoSelf σ.heap
+
+def ValidLoc (σ : State) : Loc → Prop
+  | .slot k => k < σ.slots.length
+  | .item id i => ∃ b, getB σ.heap id = .ok b ∧ i < b.items.length
+
+/-- a value that some live Var of the state holds (a `const Var&` into the state) -/
+def HeldIn (σ : State) (T : List V) (v : V) : Prop := v ∈ σ.slots ++ T ∨ v ∈ hvals σ.heap
+
+theorem readLoc_valid {σ : State} {l : Loc} (hl : ValidLoc σ l) (T : List V) :
+    ∃ v, readLoc σ l = .ok v ∧ HeldIn σ T v := by
+  cases l with
+  | slot k =>
+    simp only [ValidLoc] at hl
+    refine ⟨σ.slots[k], by simp [readLoc, hl], Or.inl ?_⟩
+    exact List.mem_append_left _ (List.getElem_mem hl)
+  | item id i =>
+    obtain ⟨b, hb, hi⟩ := hl
+    refine ⟨b.items[i].2, by simp [readLoc, hb, hi], Or.inr ?_⟩
+    exact mem_hvals_of_getB hb (List.mem_map_of_mem (List.getElem_mem hi))
+
+
+/-! ## writing a Var -/
+
+theorem occ_set (id : Nat) : ∀ (l : List V) (k : Nat) (v : V) (hk : k < l.length),
+    occ id (l.set k v) + occ id [l[k]] = occ id l + occ id [v]
+  | [], k, v, hk => by simp at hk
+  | x :: l, 0, v, _ => by simp [occ_cons, occ_nil]; omega
+  | x :: l, k + 1, v, hk => by
+    have := occ_set id l k v (by simpa using hk)
+    simp [occ_cons, occ_nil] at this ⊢; omega
+
+theorem map_snd_setValAt : ∀ (l : List (Bytes × V)) (i : Nat) (v : V),
+    (Map.setValAt l i v).map (·.2) = (l.map (·.2)).set i v
+  | [], _, _ => by simp [Map.setValAt]
+  | (k, x) :: t, 0, v => by simp [Map.setValAt]
+  | kv :: t, i + 1, v => by simp [Map.setValAt, map_snd_setValAt t i v]
+
+/-- heaps/states with the same blocks alive and the same shapes (lengths, kinds, keys, counts) -/
+def SameDom (σ σ' : State) : Prop :=
+  σ'.slots.length = σ.slots.length ∧ σ'.heap.length = σ.heap.length ∧
+  ∀ id b, getB σ.heap id = .ok b → ∃ b', getB σ'.heap id = .ok b' ∧ b'.items.length = b.items.length ∧
+    b'.isObj = b.isObj ∧ b'.cap = b.cap
+
+theorem SameDom.validLoc {σ σ' : State} (d : SameDom σ σ') {l : Loc} (hl : ValidLoc σ l) : ValidLoc σ' l := by
+  cases l with
+  | slot k => simp only [ValidLoc] at hl ⊢; rw [d.1]; exact hl
+  | item id i =>
+    obtain ⟨b, hb, hi⟩ := hl
+    obtain ⟨b', hb', hlen, _⟩ := d.2.2 id b hb
+    exact ⟨b', hb', by omega⟩
+
+theorem Inv.writeLoc {σ : State} {T : List V} {v : V} {l : Loc} (inv : Inv σ (v :: T)) (hl : ValidLoc σ l)
+    (hself : ∀ id, parentOf l = some id → handleOf v ≠ some id) :
+    ∃ σ' old, readLoc σ l = .ok old ∧ Var.writeLoc σ l v = .ok σ' ∧ Inv σ' (old :: T) ∧ SameDom σ σ' ∧
+      readLoc σ' l = .ok v := by
+  cases l with
+  | slot k =>
+    simp only [ValidLoc] at hl
+    refine ⟨{ σ with slots := σ.slots.set k v }, σ.slots[k], by simp [readLoc, hl], by simp [Var.writeLoc, hl], ?_, ?_, ?_⟩
+    · refine ⟨?_, inv.sorted, inv.noself⟩
+      apply inv.wf.congr
+      · intro x hx
+        simp only [List.mem_append, List.mem_cons] at hx ⊢
+        rcases hx with hx | rfl | hx
+        · rcases List.mem_or_eq_of_mem_set hx with h1 | rfl
+          · exact Or.inl h1
+          · exact Or.inr (Or.inl rfl)
+        · exact Or.inl (List.getElem_mem hl)
+        · exact Or.inr (Or.inr hx)
+      · intro id
+        have := occ_set id σ.slots k v hl
+        simp only [occ_append, occ_cons, occ_nil] at this ⊢
+        omega
+    · exact ⟨by simp, rfl, fun id b hb => ⟨b, hb, rfl, rfl, rfl⟩⟩
+    · simp [readLoc, hl]
+  | item id i =>
+    obtain ⟨b, hb, hi⟩ := hl
+    have hlt := getB_lt hb
+    have hbe := getB_eq.mp hb
+    let b' : Block := { b with items := Map.setValAt b.items i v }
+    have hbv : bvals b' = (bvals b).set i v := by simp [bvals, b', map_snd_setValAt]
+    have hold : (bvals b)[i]'(by simp [bvals, hi]) = b.items[i].2 := by simp [bvals]
+    have hcset := fun x => occ_set x (bvals b) i v (by simp [bvals, hi])
+    have hhset := fun x => occ_hvals_set x σ.heap id (some b') hlt
+    simp only [hbe, Option.getD_some, ovals, hbv] at hhset
+    refine ⟨{ σ with heap := setB σ.heap id b' }, b.items[i].2, by simp [readLoc, hb, hi],
+      by simp [Var.writeLoc, hb, hi, b'], ?_, ?_, ?_⟩
+    · refine ⟨⟨?_, ?_, ?_⟩, ?_, ?_⟩
+      · intro x hx id' hid'
+        have hx' : x ∈ σ.slots ++ v :: T ∨ x ∈ hvals σ.heap := by
+          rcases hx with hx | hx
+          · simp only [List.mem_append, List.mem_cons] at hx ⊢
+            rcases hx with hx | rfl | hx
+            · exact Or.inl (Or.inl hx)
+            · exact Or.inr (mem_hvals_of_getB hb (List.mem_map_of_mem (List.getElem_mem hi)))
+            · exact Or.inl (Or.inr (Or.inr hx))
+          · rcases mem_hvals_set hx with h1 | h1
+            · exact Or.inr h1
+            · simp only [ovals, hbv] at h1
+              rcases List.mem_or_eq_of_mem_set h1 with h2 | rfl
+              · exact Or.inr (mem_hvals_of_getB hb h2)
+              · exact Or.inl (by simp)
+        obtain ⟨b2, hb2, hk2⟩ := inv.wf.live x hx' id' hid'
+        by_cases he : id' = id
+        · subst he
+          rw [hb] at hb2; cases hb2
+          exact ⟨b', getB_setB_same _ hlt, hk2⟩
+        · exact ⟨b2, by rw [setB, getB_set_ne _ he]; exact hb2, hk2⟩
+      · intro id' b2 hb2
+        have h1 := hcset id'
+        have h2 := hhset id'
+        simp only [hold] at h1
+        by_cases he : id' = id
+        · subst he
+          rw [getB_setB_same _ hlt] at hb2; cases hb2
+          have hc := inv.wf.counted id' b hb
+          simp only [occ_append, occ_cons, occ_nil] at hc h1 h2 ⊢
+          show b.rc = _
+          unfold setB
+          omega
+        · rw [setB, getB_set_ne _ he] at hb2
+          have hc := inv.wf.counted id' b2 hb2
+          simp only [occ_append, occ_cons, occ_nil] at hc h1 h2 ⊢
+          unfold setB
+          omega
+      · intro id' b2 hb2
+        by_cases he : id' = id
+        · subst he
+          rw [getB_setB_same _ hlt] at hb2; cases hb2
+          exact inv.wf.pos id' b hb
+        · rw [setB, getB_set_ne _ he] at hb2
+          exact inv.wf.pos id' b2 hb2
+      · intro id' b2 hb2 ho
+        by_cases he : id' = id
+        · subst he
+          rw [getB_setB_same _ hlt] at hb2; cases hb2
+          exact AslProofs.Map.setValAt_sorted (inv.sorted id' b hb ho) i v
+        · rw [setB, getB_set_ne _ he] at hb2
+          exact inv.sorted id' b2 hb2 ho
+      · intro id' b2 hb2 x hx
+        by_cases he : id' = id
+        · subst he
+          rw [getB_setB_same _ hlt] at hb2; cases hb2
+          rw [hbv] at hx
+          rcases List.mem_or_eq_of_mem_set hx with h2 | rfl
+          · exact inv.noself id' b hb x h2
+          · exact hself id' rfl
+        · rw [setB, getB_set_ne _ he] at hb2
+          exact inv.noself id' b2 hb2 x hx
+    · refine ⟨rfl, by simp [setB], fun id' b2 hb2 => ?_⟩
+      by_cases he : id' = id
+      · subst he
+        rw [hb] at hb2; cases hb2
+        exact ⟨b', getB_setB_same _ hlt, by simp [b', AslProofs.Map.setValAt_length], rfl, rfl⟩
+      · exact ⟨b2, by rw [setB, getB_set_ne _ he]; exact hb2, rfl, rfl, rfl⟩
+    · have hi' : i < (Map.setValAt b.items i v).length := by rw [AslProofs.Map.setValAt_length]; exact hi
+      have : ((Map.setValAt b.items i v)[i]'hi').2 = v := by
+        have := congrArg (fun l => l[i]?) (map_snd_setValAt b.items i v)
+        simp [hi, hi'] at this
+        exact this
+      simp [readLoc, getB_setB_same _ hlt, b', hi', this]
+
+
+/-! ## the invariant through copy, destruction, assignment -/
+
+theorem SortedHeap.of_sub {h h' : Heap} (sub : SubItems h h') (sh : SortedHeap h) : SortedHeap h' := by
+  intro id b' hb' ho
+  obtain ⟨b, hb, e1, e2, _⟩ := sub.2 id b' hb'
+  rw [e1]; exact sh id b hb (by rw [← e2]; exact ho)
+
+theorem NoSelf.of_sub {h h' : Heap} (sub : SubItems h h') (ns : NoSelf h) : NoSelf h' := by
+  intro id b' hb' v hv
+  obtain ⟨b, hb, e1, _, _⟩ := sub.2 id b' hb'
+  exact ns id b hb v (by simpa [bvals, e1] using hv)
+
+/-- a value that may be the argument of a copy: a scalar, or a handle some Var of the state holds -/
+def Held (σ : State) (T : List V) (v : V) : Prop := handleOf v = none ∨ v ∈ σ.slots ++ T ∨ v ∈ hvals σ.heap
+
+theorem Inv.copyV {σ : State} {T : List V} {v : V} (inv : Inv σ T) (hv : Held σ T v) :
+    ∃ h', Var.copyV σ.heap v = .ok h' ∧ Inv { σ with heap := h' } (v :: T) ∧ SameItems σ.heap h' := by
+  rcases hv with hv | hv
+  · refine ⟨σ.heap, by simp [Var.copyV, hv], ⟨?_, inv.sorted, inv.noself⟩, SameItems.refl _⟩
+    apply ((WF.cons_scalar (h := σ.heap) (R := σ.slots ++ T) hv).mpr inv.wf).congr
+    · intro x hx; simp only [List.mem_append, List.mem_cons] at hx ⊢; rcases hx with h1 | h1 | h1 <;> simp [h1]
+    · intro id; simp only [occ_append, occ_cons]; omega
+  · obtain ⟨h', hc, wf', same⟩ := inv.wf.copyV hv
+    refine ⟨h', hc, ⟨?_, SortedHeap.of_sub (SubItems.of_same same) inv.sorted, NoSelf.of_sub (SubItems.of_same same) inv.noself⟩, same⟩
+    apply wf'.congr
+    · intro x hx; simp only [List.mem_append, List.mem_cons] at hx ⊢; rcases hx with h1 | h1 | h1 <;> simp [h1]
+    · intro id; simp only [occ_append, occ_cons]; omega
+
+theorem Inv.drop {σ : State} {T wl : List V} (inv : Inv σ (wl ++ T)) :
+    ∃ h', Var.drop σ.heap wl = .ok h' ∧ Inv { σ with heap := h' } T ∧ SubItems σ.heap h' := by
+  have wf0 : WF σ.heap (wl ++ (σ.slots ++ T)) := by
+    apply inv.wf.congr
+    · intro x hx; simp only [List.mem_append] at hx ⊢; rcases hx with h1 | h1 | h1 <;> simp [h1]
+    · intro id; simp only [occ_append]; omega
+  obtain ⟨h', hd, wf', sub⟩ := wf0.drop
+  exact ⟨h', hd, ⟨wf', SortedHeap.of_sub sub inv.sorted, NoSelf.of_sub sub inv.noself⟩, sub⟩
+
+theorem Inv.perm {σ : State} {T T' : List V} (inv : Inv σ T) (hm : ∀ v, v ∈ T' → v ∈ T) (hc : ∀ id, occ id T' = occ id T) :
+    Inv σ T' :=
+  ⟨inv.wf.congr (fun x hx => by simp only [List.mem_append] at hx ⊢; rcases hx with h1 | h1; exact Or.inl h1; exact Or.inr (hm x h1))
+    (fun id => by simp only [occ_append, hc]), inv.sorted, inv.noself⟩
+
+theorem Inv.scalar {σ : State} {T : List V} {v : V} (hv : handleOf v = none) : Inv σ (v :: T) ↔ Inv σ T := by
+  constructor
+  · intro inv; exact inv.perm (fun x hx => List.mem_cons_of_mem _ hx) (fun id => by simp [occ_cons, hv])
+  · intro inv
+    refine ⟨?_, inv.sorted, inv.noself⟩
+    have := (WF.cons_scalar (h := σ.heap) (R := σ.slots ++ T) hv).mpr inv.wf
+    apply this.congr
+    · intro x hx; simp only [List.mem_append, List.mem_cons] at hx ⊢; rcases hx with h1 | h1 | h1 <;> simp [h1]
+    · intro id; simp only [occ_append, occ_cons]; omega
+
+/-- `storeV`: write, then release what the Var held -/
+theorem Inv.storeV {σ : State} {T : List V} {v : V} {t : Loc} (inv : Inv σ (v :: T)) (hl : ValidLoc σ t)
+    (hself : ∀ id, parentOf t = some id → handleOf v ≠ some id) :
+    ∃ σ', Var.storeV σ t v = .ok σ' ∧ Inv σ' T ∧ σ'.slots.length = σ.slots.length := by
+  obtain ⟨σ1, old, hr, hw, inv1, dom, _⟩ := inv.writeLoc hl hself
+  obtain ⟨h', hd, inv2, _⟩ := Inv.drop (σ := σ1) (wl := [old]) (T := T) (by simpa using inv1)
+  refine ⟨{ σ1 with heap := h' }, ?_, inv2, dom.1⟩
+  simp [Var.storeV, hr, hw, hd]
+
+theorem Inv.assignScalar {σ : State} {T : List V} {v : V} {t : Loc} (inv : Inv σ T) (hl : ValidLoc σ t)
+    (hv : handleOf v = none) :
+    ∃ σ', Var.assignScalar σ t v = .ok σ' ∧ Inv σ' T ∧ σ'.slots.length = σ.slots.length :=
+  Inv.storeV ((Inv.scalar hv).mpr inv) hl (fun _ _ => by simp [hv])
+
+theorem Inv.assignString {σ : State} {T : List V} {s : Bytes} {t : Loc} (inv : Inv σ T) (hl : ValidLoc σ t) :
+    ∃ σ', Var.assignString σ t s = .ok σ' ∧ Inv σ' T ∧ σ'.slots.length = σ.slots.length := by
+  obtain ⟨old, hr, _⟩ := readLoc_valid hl T
+  have inplace : ∀ nv : V, handleOf nv = none → handleOf old = none →
+      ∃ σ', Var.writeLoc σ t nv = .ok σ' ∧ Inv σ' T ∧ σ'.slots.length = σ.slots.length := by
+    intro nv hnv hold
+    obtain ⟨σ1, old', hr', hw, inv1, dom, _⟩ := ((Inv.scalar hnv).mpr inv).writeLoc hl (fun _ _ => by simp [hnv])
+    rw [hr] at hr'; cases hr'
+    exact ⟨σ1, hw, (Inv.scalar hold).mp inv1, dom.1⟩
+  unfold Var.assignString
+  rw [hr]
+  cases old with
+  | str x => exact inplace _ rfl rfl
+  | sstr x =>
+    simp only []
+    split
+    · exact inplace _ rfl rfl
+    · exact inplace _ rfl rfl
+  | none => exact Inv.storeV ((Inv.scalar (by split <;> rfl)).mpr inv) hl (fun _ _ => by split <;> simp [handleOf])
+  | null => exact Inv.storeV ((Inv.scalar (by split <;> rfl)).mpr inv) hl (fun _ _ => by split <;> simp [handleOf])
+  | bool _ => exact Inv.storeV ((Inv.scalar (by split <;> rfl)).mpr inv) hl (fun _ _ => by split <;> simp [handleOf])
+  | int _ => exact Inv.storeV ((Inv.scalar (by split <;> rfl)).mpr inv) hl (fun _ _ => by split <;> simp [handleOf])
+  | num _ => exact Inv.storeV ((Inv.scalar (by split <;> rfl)).mpr inv) hl (fun _ _ => by split <;> simp [handleOf])
+  | flt _ => exact Inv.storeV ((Inv.scalar (by split <;> rfl)).mpr inv) hl (fun _ _ => by split <;> simp [handleOf])
+  | arr _ => exact Inv.storeV ((Inv.scalar (by split <;> rfl)).mpr inv) hl (fun _ _ => by split <;> simp [handleOf])
+  | obj _ => exact Inv.storeV ((Inv.scalar (by split <;> rfl)).mpr inv) hl (fun _ _ => by split <;> simp [handleOf])
+
+
+theorem SameDom.of_same {σ : State} {h' : Heap} (e : SameItems σ.heap h') : SameDom σ { σ with heap := h' } :=
+  ⟨rfl, e.length.symm, fun id b hb => by
+    obtain ⟨b', hb', e1, e2, e3⟩ := e.get hb
+    exact ⟨b', hb', by rw [e1], e2, e3⟩⟩
+
+theorem readLoc_same {σ : State} {h' : Heap} (e : SameItems σ.heap h') (l : Loc) {v : V} (hr : readLoc σ l = .ok v) :
+    readLoc { σ with heap := h' } l = .ok v := by
+  cases l with
+  | slot k => simpa [readLoc] using hr
+  | item id i =>
+    simp only [readLoc] at hr ⊢
+    cases hb : getB σ.heap id with
+    | error e => simp [hb] at hr
+    | ok b =>
+      obtain ⟨b', hb', e1, _, _⟩ := e.get hb
+      simp only [hb] at hr
+      simp only [hb', e1]
+      exact hr
+
+theorem isPod_handle {v : V} (h : isPod v = true) : handleOf v = none := by
+  cases v <;> simp [isPod] at h <;> rfl
+
+/-- `operator=(const Var&)`: safe for every held source, also one stored inside the target -/
+theorem Inv.assignV {σ : State} {T : List V} {t : Loc} {src : V} (inv : Inv σ T) (hl : ValidLoc σ t) (hs : Held σ T src)
+    (hself : ∀ id, parentOf t = some id → handleOf src ≠ some id) :
+    ∃ σ', Var.assignV σ t src = .ok σ' ∧ Inv σ' T ∧ σ'.slots.length = σ.slots.length := by
+  obtain ⟨old, hr, _⟩ := readLoc_valid hl T
+  have inplace : ∀ s : Bytes, handleOf old = none →
+      ∃ σ', Var.writeLoc σ t (V.str s) = .ok σ' ∧ Inv σ' T ∧ σ'.slots.length = σ.slots.length := by
+    intro s hold
+    obtain ⟨σ1, old', hr', hw, inv1, dom, _⟩ := ((Inv.scalar (v := V.str s) rfl).mpr inv).writeLoc hl (fun _ _ => by simp [handleOf])
+    rw [hr] at hr'; cases hr'
+    exact ⟨σ1, hw, (Inv.scalar hold).mp inv1, dom.1⟩
+  unfold Var.assignV
+  rw [hr]
+  dsimp only
+  split
+  · -- STRING := STRING in place
+    exact inplace _ rfl
+  · obtain ⟨h1, hc, inv1, same⟩ := inv.copyV hs
+    simp only [hc]
+    have hl1 : ValidLoc { σ with heap := h1 } t := (SameDom.of_same same).validLoc hl
+    obtain ⟨σ2, old', hr', hw, inv2, dom, _⟩ := inv1.writeLoc hl1 hself
+    rw [readLoc_same same t hr] at hr'; cases hr'
+    simp only [hw]
+    by_cases hp : isPod old = true
+    · simp only [hp, if_true]
+      exact ⟨σ2, rfl, (Inv.scalar (isPod_handle hp)).mp inv2, dom.1⟩
+    · simp only [hp]
+      obtain ⟨h3, hd, inv3, _⟩ := Inv.drop (σ := σ2) (wl := [old]) (T := T) (by simpa using inv2)
+      simp only [hd]
+      exact ⟨_, rfl, inv3, dom.1⟩
+
+
+/-! ## changing the elements of one block -/
+
+/-- Replace the elements of block `id`: the operation gives up the owned values `A` (they go into the block) and
+receives `B` (they come out of it); handles are neither created nor lost. -/
+theorem Inv.reitems {σ : State} {T A B : List V} {id : Nat} {b : Block} {items' : List (Bytes × V)} {cap' : Nat}
+    (inv : Inv σ (A ++ T)) (hb : getB σ.heap id = .ok b)
+    (hcount : ∀ j, occ j (items'.map (·.2)) + occ j B = occ j (bvals b) + occ j A)
+    (hmem : ∀ v, v ∈ items'.map (·.2) ++ B → v ∈ bvals b ++ A)
+    (hsorted : b.isObj = true → SortedItems items')
+    (hnoself : ∀ v ∈ items'.map (·.2), handleOf v ≠ some id) :
+    Inv { σ with heap := setB σ.heap id { b with items := items', cap := cap' } } (B ++ T) := by
+  have hlt := getB_lt hb
+  have hbe := getB_eq.mp hb
+  have hhset := fun x => occ_hvals_set x σ.heap id (some { b with items := items', cap := cap' }) hlt
+  simp only [hbe, Option.getD_some, ovals] at hhset
+  have hbv : bvals { b with items := items', cap := cap' } = items'.map (·.2) := rfl
+  refine ⟨⟨?_, ?_, ?_⟩, ?_, ?_⟩
+  · intro x hx id' hid'
+    have hx' : x ∈ σ.slots ++ (A ++ T) ∨ x ∈ hvals σ.heap := by
+      rcases hx with hx | hx
+      · simp only [List.mem_append] at hx ⊢
+        rcases hx with hx | hx | hx
+        · exact Or.inl (Or.inl hx)
+        · have := hmem x (by simp [hx])
+          simp only [List.mem_append] at this
+          rcases this with h1 | h1
+          · exact Or.inr (mem_hvals_of_getB hb h1)
+          · exact Or.inl (Or.inr (Or.inl h1))
+        · exact Or.inl (Or.inr (Or.inr hx))
+      · rcases mem_hvals_set hx with h1 | h1
+        · exact Or.inr h1
+        · simp only [ovals, hbv] at h1
+          have := hmem x (by simp [h1])
+          simp only [List.mem_append] at this
+          rcases this with h2 | h2
+          · exact Or.inr (mem_hvals_of_getB hb h2)
+          · exact Or.inl (by simp [h2])
+    obtain ⟨b2, hb2, hk2⟩ := inv.wf.live x hx' id' hid'
+    by_cases he : id' = id
+    · subst he
+      rw [hb] at hb2; cases hb2
+      exact ⟨_, getB_setB_same _ hlt, hk2⟩
+    · exact ⟨b2, by rw [setB, getB_set_ne _ he]; exact hb2, hk2⟩
+  · intro id' b2 hb2
+    have h1 := hcount id'
+    have h2 := hhset id'
+    by_cases he : id' = id
+    · subst he
+      rw [getB_setB_same _ hlt] at hb2; cases hb2
+      have hc := inv.wf.counted id' b hb
+      simp only [occ_append, hbv] at hc h1 h2 ⊢
+      show b.rc = _
+      unfold setB
+      omega
+    · rw [setB, getB_set_ne _ he] at hb2
+      have hc := inv.wf.counted id' b2 hb2
+      simp only [occ_append, hbv] at hc h1 h2 ⊢
+      unfold setB
+      omega
+  · intro id' b2 hb2
+    by_cases he : id' = id
+    · subst he
+      rw [getB_setB_same _ hlt] at hb2; cases hb2
+      exact inv.wf.pos id' b hb
+    · rw [setB, getB_set_ne _ he] at hb2
+      exact inv.wf.pos id' b2 hb2
+  · intro id' b2 hb2 ho
+    by_cases he : id' = id
+    · subst he
+      rw [getB_setB_same _ hlt] at hb2; cases hb2
+      exact hsorted ho
+    · rw [setB, getB_set_ne _ he] at hb2
+      exact inv.sorted id' b2 hb2 ho
+  · intro id' b2 hb2 x hx
+    by_cases he : id' = id
+    · subst he
+      rw [getB_setB_same _ hlt] at hb2; cases hb2
+      exact hnoself x hx
+    · rw [setB, getB_set_ne _ he] at hb2
+      exact inv.noself id' b2 hb2 x hx
+
+theorem handleOf_mkHandle (o : Bool) (n : Nat) : handleOf (mkHandle o n) = some n := by
+  unfold mkHandle; split <;> rfl
+
+theorem isObjV_mkHandle (o : Bool) (n : Nat) : isObjV (mkHandle o n) = o := by
+  unfold mkHandle; cases o <;> rfl
+
+theorem occ_zero_of_lt {N : Nat} {l : List V} (hl : ∀ v ∈ l, ∀ id, handleOf v = some id → id < N) : occ N l = 0 := by
+  rw [occ_eq_zero_iff]
+  intro v hv e
+  have := hl v hv N e
+  omega
+
+theorem WF.handle_lt {h : Heap} {R : List V} (wf : WF h R) {v : V} (hv : v ∈ R ∨ v ∈ hvals h) {id : Nat}
+    (hid : handleOf v = some id) : id < h.length := by
+  obtain ⟨b, hb, _⟩ := wf.live v hv id hid
+  exact getB_lt hb
+
+/-- a new block takes over the owned values `bvals b`; its handle is a new owned value -/
+theorem Inv.alloc {σ : State} {T : List V} {b : Block} (inv : Inv σ (bvals b ++ T)) (hrc : b.rc = 1)
+    (hs : b.isObj = true → SortedItems b.items) :
+    Inv { σ with heap := σ.heap ++ [some b] } (mkHandle b.isObj σ.heap.length :: T) := by
+  have hlive : ∀ x, (x ∈ σ.slots ++ (bvals b ++ T) ∨ x ∈ hvals σ.heap) → ∀ id, handleOf x = some id → id < σ.heap.length :=
+    fun x hx id hid => inv.wf.handle_lt hx hid
+  refine ⟨⟨?_, ?_, ?_⟩, ?_, ?_⟩
+  · intro x hx id' hid'
+    simp only [hvals_append, hvals_cons, hvals_nil, ovals, List.append_nil] at hx
+    by_cases hx0 : x = mkHandle b.isObj σ.heap.length
+    · subst hx0
+      rw [handleOf_mkHandle] at hid'; cases hid'
+      exact ⟨b, getB_alloc_new _ _, (isObjV_mkHandle _ _).symm⟩
+    · have hx' : x ∈ σ.slots ++ (bvals b ++ T) ∨ x ∈ hvals σ.heap := by
+        simp only [List.mem_append, List.mem_cons] at hx ⊢
+        rcases hx with (h1 | h1 | h1) | h1 | h1
+        · exact Or.inl (Or.inl h1)
+        · exact absurd h1 hx0
+        · exact Or.inl (Or.inr (Or.inr h1))
+        · exact Or.inr h1
+        · exact Or.inl (Or.inr (Or.inl h1))
+      obtain ⟨b2, hb2, hk2⟩ := inv.wf.live x hx' id' hid'
+      exact ⟨b2, by rw [getB_append_left _ (getB_lt hb2)]; exact hb2, hk2⟩
+  · intro id' b2 hb2
+    simp only [hvals_append, hvals_cons, hvals_nil, ovals, List.append_nil, occ_append, occ_cons, handleOf_mkHandle]
+    by_cases he : id' = σ.heap.length
+    · subst he
+      rw [getB_alloc_new] at hb2; cases hb2
+      have z1 : occ σ.heap.length σ.slots = 0 := occ_zero_of_lt (fun v hv => hlive v (Or.inl (by simp [hv])))
+      have z2 : occ σ.heap.length T = 0 := occ_zero_of_lt (fun v hv => hlive v (Or.inl (by simp [hv])))
+      have z3 : occ σ.heap.length (hvals σ.heap) = 0 := occ_zero_of_lt (fun v hv => hlive v (Or.inr hv))
+      have z4 : occ σ.heap.length (bvals b) = 0 := occ_zero_of_lt (fun v hv => hlive v (Or.inl (by simp [hv])))
+      simp [z1, z2, z3, z4, hrc]
+    · have hlt : id' < σ.heap.length := by
+        have := getB_lt hb2
+        simp at this; omega
+      rw [getB_append_left _ hlt] at hb2
+      have hc := inv.wf.counted id' b2 hb2
+      simp only [occ_append] at hc
+      have : ¬ (some σ.heap.length = some id') := by intro e; cases e; exact he rfl
+      simp only [this, if_false]
+      omega
+  · intro id' b2 hb2
+    by_cases he : id' = σ.heap.length
+    · subst he
+      rw [getB_alloc_new] at hb2; cases hb2; omega
+    · have hlt : id' < σ.heap.length := by
+        have := getB_lt hb2
+        simp at this; omega
+      rw [getB_append_left _ hlt] at hb2
+      exact inv.wf.pos id' b2 hb2
+  · intro id' b2 hb2 ho
+    by_cases he : id' = σ.heap.length
+    · subst he
+      rw [getB_alloc_new] at hb2; cases hb2; exact hs ho
+    · have hlt : id' < σ.heap.length := by
+        have := getB_lt hb2
+        simp at this; omega
+      rw [getB_append_left _ hlt] at hb2
+      exact inv.sorted id' b2 hb2 ho
+  · intro id' b2 hb2 x hx
+    by_cases he : id' = σ.heap.length
+    · subst he
+      rw [getB_alloc_new] at hb2; cases hb2
+      intro e
+      have := hlive x (Or.inl (by simp [hx])) _ e
+      omega
+    · have hlt : id' < σ.heap.length := by
+        have := getB_lt hb2
+        simp at this; omega
+      rw [getB_append_left _ hlt] at hb2
+      exact inv.noself id' b2 hb2 x hx
+
 
 end AslModel.Var
